@@ -957,9 +957,6 @@ class Fxp():
             self.real = self.astype(complex).real
             self.imag = self.astype(complex).imag
 
-        # update dtype
-        self._update_dtype()
-
         # vdtype
         if raw:
             if vdtype is not None:
@@ -969,6 +966,9 @@ class Fxp():
 
         if self.vdtype is not None and self.vdtype != complex and np.issubdtype(self.vdtype, np.integer) and self.n_frac > 0:
             self.vdtype = float  # change to float type if Fxp has fractional part
+
+        # update dtype (after vdtype, which decides the complex suffix)
+        self._update_dtype()
 
         # check inaccuracy
         if not np.equal(val, new_val/conv_factor).all() :
